@@ -390,7 +390,10 @@ def run(ctx):
                 json.dump(ssc.fakegit_json(sorder, extra={"delay_ms": {slow: 1500 + 150 * (k % 5)}}), f)
             env = S.clean_env({"PATH": fdir + ":" + os.environ.get("PATH", ""), "FAKEGIT_SCENARIO": scp, "GOMAXPROCS": str([1, 2, 4, 16][(k // 4) % 4])})
             rfd, wfd = os.pipe()
-            fcntl.fcntl(wfd, 1031, 4096)                 # F_SETPIPE_SZ: one page,
+            try:
+                fcntl.fcntl(wfd, 1031, 4096)             # F_SETPIPE_SZ: one page,
+            except OSError:
+                pass                                     # (a larger pipe only makes the reader less slow)
             os.write(wfd, b"x" * 4040)                   # of which all but a line or two is taken: the next writes block
             wd = os.path.join(eng.scratch, "wd")
             os.makedirs(wd, exist_ok=True)
